@@ -95,7 +95,7 @@ func runR161(c *core.Ctx) {
 		if !ok {
 			return true
 		}
-		if cf := core.Callee(inf, call); cf != nil && cf.Name() == "LocateOriginalKeyFromReader" {
+		if cf := core.Callee(inf, call); cf != nil && core.NameOf(cf) == "LocateOriginalKeyFromReader" {
 			if sel, ok := core.Unparen(call.Fun).(*ast.SelectorExpr); ok && core.ObjOf(inf, sel.X) == keysParam {
 				orig = core.ObjOf(inf, as.Lhs[0])
 				locAssign = as
@@ -173,7 +173,7 @@ func runR161(c *core.Ctx) {
 	}
 	ast.Inspect(dbqD.Body, func(n ast.Node) bool {
 		if call, ok := n.(*ast.CallExpr); ok {
-			if cf := core.Callee(rinf, call); cf != nil && cf.Name() == "UnmarshalWithKeyLocator" && len(call.Args) == 2 && core.ObjOf(rinf, call.Args[1]) == keysP && keysP != nil {
+			if cf := core.Callee(rinf, call); cf != nil && core.NameOf(cf) == "UnmarshalWithKeyLocator" && len(call.Args) == 2 && core.ObjOf(rinf, call.Args[1]) == keysP && keysP != nil {
 				okPass = true
 			}
 		}
@@ -215,7 +215,7 @@ func runR162(c *core.Ctx) {
 			if as, ok := n.(*ast.AssignStmt); ok && len(as.Rhs) == 1 && len(as.Lhs) == 2 {
 				switch r := core.Unparen(as.Rhs[0]).(type) {
 				case *ast.CallExpr:
-					if cf := core.Callee(inf, r); cf != nil && cf.Name() == "LocateOriginalKey" {
+					if cf := core.Callee(inf, r); cf != nil && core.NameOf(cf) == "LocateOriginalKey" {
 						found = core.ObjOf(inf, as.Lhs[1])
 					}
 				case *ast.IndexExpr:
@@ -387,7 +387,7 @@ func runR163(c *core.Ctx) {
 		_, fd := mustDecl(c, rel, name)
 		r := errFlow(c, inf, fd, func(call *ast.CallExpr) bool {
 			cf := core.Callee(inf, call)
-			return cf != nil && cf.Name() == "AddKey"
+			return cf != nil && core.NameOf(cf) == "AddKey"
 		}, nil)
 		c.Check(r.sources > 0 && r.propagated && !r.lost, rel, name, "the first AddKey error stops the loop and is returned", fd.Pos(), "",
 			fmt.Sprintf("AddKey calls whose error is followed: %d, returned on its non-nil branch: %v, overwritten or dropped on some path: %v", r.sources, r.propagated, r.lost))
@@ -398,7 +398,7 @@ func runR163(c *core.Ctx) {
 		_, d := mustDecl(c, r2, name)
 		r := errFlow(c, rinf, d, func(call *ast.CallExpr) bool {
 			cf := core.Callee(rinf, call)
-			return cf != nil && (cf.Name() == "AddAllKeys" || cf.Name() == "AddAllMapKeys")
+			return cf != nil && (core.NameOf(cf) == "AddAllKeys" || core.NameOf(cf) == "AddAllMapKeys")
 		}, func(n ast.Node) bool {
 			call, ok := n.(*ast.CallExpr)
 			if !ok {
@@ -533,7 +533,7 @@ func runR165(c *core.Ctx) {
 				sortPos = x.Pos()
 				sorted = core.ObjOf(inf, x.Args[0])
 			}
-			if cf != nil && cf.Name() == "WriteArray" && writePos == 0 {
+			if cf != nil && core.NameOf(cf) == "WriteArray" && writePos == 0 {
 				writePos = x.Pos()
 			}
 		case *ast.RangeStmt:
